@@ -331,6 +331,11 @@ func (tr *Tr) instr(fr *frame, ins ssa.Instruction) {
 		tr.runDefers(fr)
 	case *ssa.Send:
 		tr.vc.Abstract["chan-send"]++
+		if top := tr.topFrame; top != nil && top.contract != nil && top.contract.NonBlocking {
+			// a plain send (not a select case with a default) waits for a receiver: in a function that must
+			// not wait on other goroutines it is an obligation that the statement is unreachable
+			tr.oblige(fr, "blocking", "", "", fr.curReach, "false", x.Pos(), "channel send outside a select with default may block forever")
+		}
 	case *ssa.Select:
 		tr.vc.Abstract["select"]++
 		tup := x.Type().(*types.Tuple)
